@@ -220,7 +220,8 @@ def r4(ctx):
 def r5(ctx):
     from . import c09
     c09.lifecycle(ctx, {"fit-pairs", "bic-state"})   # no statistics refresh between the last fit and the BIC; BIC and labels of one state
-    from . import c14, c20
+    from . import c04, c14, c20
+    ctx.sub(c04.r5, only=("mrfs",))      # the MRFs the criterion is computed from are the MRFs the result reports (nothing is filtered in between)
     ctx.sub(c14.r2, only=("producer:", "consumer:", "unordered:"))   # MRF k is the optimiser's result for cluster k's covariance (ordered gather)
     ctx.sub(c20.r2, only=("get:",))   # a failed task is never papered over by keeping the previous MRF
 
